@@ -61,6 +61,9 @@ def parseOperand? (tok : String) : Option Operand :=
   else if tok = "s" then some (.simple true)
   else if tok = "s0" then some (.simple false)
   else if tok = "n" then some (.lit .empty)
+  -- SimpleAttributeOperands that resolve to a property of the event: its value, like a literal
+  else if tok = "sv:sev" then some (.lit (.num .uint16 (.int 7)))
+  else if tok = "sv:src" then some (.lit (.str (some [97, 98, 99])))
   else
     match tok.splitOn ":" with
     | [one] =>
@@ -345,6 +348,17 @@ def dstep (elems : List Element) (toks : List String) : List Element × String :
     (elems, withArms ("ok [" ++ ",".intercalate ((validateClause elems).map codeStr) ++ "]")
       (validateArms elems ++ (validateClause elems).map (fun c => "vs:" ++ codeStr c)))
   | ["eval"] => (elems, withArms (showRes (evalClause false elems)) (evalArms elems))
+  | ["nullclause"] => (elems, "ok bool:1 none @@ ev:null-clause")
+  | ["evalevent"] =>
+    -- `event_filter::evaluate`: the event passes iff the where clause is `Ok(Boolean(true))`
+    let r := evalClause false elems
+    (elems, withArms (if r = .ok (boolV true) then "ok 1" else "ok 0")
+      [match r with
+       | .ok (.num .boolean (.int 1)) => "ee:pass"
+       | .ok (.num .boolean _) => "ee:reject-false"
+       | .ok .empty => "ee:reject-null"
+       | .ok _ => "ee:reject-value"
+       | _ => "ee:reject-error"])
   | ["likere", p] =>
     match parseStr? p with
     | some bs =>
